@@ -100,8 +100,9 @@ func (r *v12RTT) SetInitialRTT(d time.Duration) {
 // ---- configuration of one trace
 
 type v12Phase struct {
-	dur   int64 // ns
-	mode  int   // 0 backlogged, 1 idle, 2 trickle, 3 bursts, 4 receive-only (a run of ACK-only packets every `every` ns)
+	dur  int64 // ns
+	mode int   // 0 backlogged, 1 idle, 2 trickle, 3 bursts, 4 receive-only (a run of ACK-only packets every `every` ns),
+	// 5 idle until pacing bandwidth x time since the last send = chunk/1000 x 2^63 (chosen from the actual pacer rate)
 	chunk int64 // bytes per write (trickle/bursts)
 	every int64 // ns between writes
 }
@@ -277,6 +278,13 @@ type v12Sim struct {
 	lossEvents                int
 	ghostAcks                 int
 	pacerChecks, pacerSkipped int
+	pacerOverflow             int // pacer queried with bandwidth x idle beyond 62 bits
+	beyond63                  int // pacer consulted with bandwidth x idle >= 2^63
+	overflowIdles             int // idle phases long enough for bandwidth x idle >= 2^63
+	sentAtIdleEnd             int // packets sent when the last long idle ended
+	longIdleEnded             bool
+	idleEndAt                 int64
+	end                       int64 // end of the trace (extended by adaptive idle phases)
 	stuck                     string
 	failing                   bool
 	knownGap                  bool // known finding "ackonly-gap": long runs of ACK-only packets are excluded by construction
@@ -448,14 +456,29 @@ func (s *v12Sim) check0(where string) {
 func (s *v12Sim) checkPacer(where string) (wake int64, limited bool) {
 	b := s.b
 	now := monotime.Time(s.now)
+	bw := uint64(b.bandwidthForPacer())
+	if s.lastSendT != 0 && float64(bw)*float64(s.now-s.lastSendT) >= 9.223372036854775807e18 {
+		s.beyond63++ // evidence: the pacer was consulted with bandwidth x idle >= 2^63
+	}
 	if b.HasPacingBudget(now) {
 		return 0, false
 	}
 	w := int64(b.TimeUntilSend(congestion.ByteCount(s.inflight)))
-	bw := uint64(b.bandwidthForPacer())
 	if s.lastSendT != 0 && bw > 0 && uint64(s.now-s.lastSendT) >= (uint64(1)<<62)/bw {
-		s.pacerSkipped++
-		return w, true
+		// bandwidth x idle time no longer fits 62 bits (long idle on a fast connection). The exact
+		// announced time is not asserted there, only progress: quic-go re-arms a timer that is in the
+		// past immediately, so the sender must have budget for a datagram at the latest after the
+		// time one datagram takes at the pacing bandwidth (+1 ms granularity).
+		s.pacerOverflow++
+		g := int64(uint64(s.ccMDS)*1000000000/bw) + int64(time.Millisecond)
+		if w > s.now && b.HasPacingBudget(monotime.Time(w)) {
+			return w, true
+		}
+		if !b.HasPacingBudget(monotime.Time(s.now + g)) {
+			s.fail("after %s: idle for %v at pacing bandwidth %d B/s: HasPacingBudget(now)=false, TimeUntilSend()=%d is not a usable future time (now %d) and there is still no budget %v later: the send loop can never send again",
+				where, time.Duration(s.now-s.lastSendT), bw, w, s.now, time.Duration(g))
+		}
+		return s.now + g, true
 	}
 	s.pacerChecks++
 	if w == 0 {
@@ -887,6 +910,9 @@ func (s *v12Sim) sendMode() (m int) {
 		return v12SendPTO
 	}
 	s.guard("CanSend/HasPacingBudget", func() {
+		if s.lastSendT != 0 && float64(s.b.bandwidthForPacer())*float64(s.now-s.lastSendT) >= 9.223372036854775807e18 {
+			s.beyond63++
+		}
 		switch {
 		case !s.b.CanSend(congestion.ByteCount(s.inflight)):
 			m = v12SendAck
@@ -949,7 +975,7 @@ func (s *v12Sim) trySend() {
 			}
 			var w int64
 			s.guard("TimeUntilSend", func() { w, _ = s.checkPacer("send loop") })
-			if w <= s.now { // outside the 62-bit range the pacer may announce a past time; keep the simulation moving
+			if w <= s.now { // cannot happen: checkPacer fails or returns a future time
 				w = s.now + 1000
 			}
 			s.pacingDeadline = w
@@ -1101,6 +1127,22 @@ func (s *v12Sim) enterPhase() {
 				s.appAvail = 0
 			}
 			s.nextWrite = s.now + ph.every
+		case 5:
+			if s.appAvail > 1<<40 {
+				s.appAvail = 0
+			}
+			s.nextWrite = 0
+			bw := float64(65536)
+			if s.b != nil {
+				s.guard("bandwidthForPacer", func() { bw = float64(s.b.bandwidthForPacer()) })
+			}
+			gap := float64(ph.chunk) / 1000 * 9.223372036854775807e18 / bw
+			if gap > 3e17 { // ~9.5 years
+				gap = 3e17
+			}
+			s.phaseEnd = max(s.now+int64(time.Second), s.lastSendT+int64(gap))
+			s.end += s.phaseEnd - s.now
+			s.overflowIdles++
 		default:
 			if s.appAvail > 1<<40 {
 				s.appAvail = 0
@@ -1131,7 +1173,7 @@ func v12Run(rt *rapid.T, st *vStats, cfg *v12Cfg) (s *v12Sim) {
 		s.sendPacket(s.quicSize, true, false, 0)
 	}
 	installed := false
-	end := cfg.start + cfg.dur
+	s.end = cfg.start + cfg.dur
 	half := cfg.start + cfg.dur/2
 	idleSpins := 0
 	for steps := 0; ; steps++ {
@@ -1191,8 +1233,8 @@ func v12Run(rt *rapid.T, st *vStats, cfg *v12Cfg) (s *v12Sim) {
 		} else {
 			idleSpins = 0
 		}
-		if next >= end || steps > 40000000 {
-			s.now = min(next, end)
+		if next >= s.end || steps > 40000000 {
+			s.now = min(next, s.end)
 			break
 		}
 		s.now = next
@@ -1220,6 +1262,9 @@ func v12Run(rt *rapid.T, st *vStats, cfg *v12Cfg) (s *v12Sim) {
 		}
 		if installed {
 			if s.phaseEnd != 0 && s.phaseEnd <= s.now {
+				if prev := cfg.phases[s.phaseIdx]; prev.mode == 5 || (prev.mode == 1 && prev.dur >= int64(10*time.Second)) {
+					s.longIdleEnded, s.sentAtIdleEnd, s.idleEndAt = true, s.sentCount, s.now
+				}
 				s.phaseIdx++
 				s.enterPhase()
 			}
@@ -1236,12 +1281,15 @@ func v12Run(rt *rapid.T, st *vStats, cfg *v12Cfg) (s *v12Sim) {
 			}
 			s.trySend()
 		}
-		if s.sentCount >= cfg.maxPackets && len(s.evs) == 0 && s.alarm == 0 {
+		if s.sentCount >= cfg.maxPackets && len(s.evs) == 0 && s.rTimer == 0 { // packet budget used up and nothing left on the path
 			break
 		}
 	}
 	if !s.halfTaken {
 		s.deliveredAtHalf = s.delivered
+	}
+	if s.longIdleEnded && s.appAvail > 0 && s.sentAtIdleEnd < cfg.maxPackets && s.sentCount == s.sentAtIdleEnd && s.now-s.idleEndAt > int64(2*time.Second) {
+		s.fail("after a long idle period data has been available for %v, %d bytes in flight, yet not a single packet was sent", time.Duration(s.now-s.idleEndAt), s.inflight)
 	}
 	return s
 }
